@@ -64,8 +64,14 @@ let hist fuel (kbx : Sexp.t) (ops : Sexp.t list) : string * Sexp.t * Sexp.t =
          let o =
            try
              (match op with
-              | L (A "build" :: A q :: ts) ->
-                let (g, w1) = unres (api_make_query (List.map term_of ts) !w) in
+              | L (A ("build" | "build-text" as how) :: A q :: ts) ->
+                let (g, w1) =
+                  if how = "build" then unres (api_make_query (List.map term_of ts) !w)
+                  else (match ts, api_parse_query fuel (match ts with [A s] -> str_of_atom s | _ -> bad "build-text") !w with
+                      | _, Ok (POk x) -> x
+                      | _, Ok PErr -> raise (Stop (A "err"))
+                      | _, Panic -> raise (Stop (A "panic"))
+                      | _, OutOfFuel -> raise (Stop (A "fuel"))) in
                 let (nd, w2) = unres (make_base_node kb g w1) in
                 w := w2;
                 (match g with
